@@ -1252,6 +1252,32 @@ pub fn run(ctx: &Ctx) -> i32 {
     });
     absorb(ctx, &mut rep, "p2_scalar_triples", r);
 
+    // triples of two-parameter candidates that differ only in vector width (same scalar kind): the candidates tie on
+    // numeric rank, so the vector-rank tie-break alone decides (added after a seeded change in that loop was missed)
+    for (fam, scalar) in [("float", 4usize), ("int", 1usize)] {
+        if ctx.quick() && fam == "int" {
+            continue;
+        }
+        let vt: Vec<P> = (1..=4u8).map(|d| p_code(ty_of(scalar, d), false)).collect();
+        let valpha: Vec<A> = vt.iter().map(|p| p_ty(*p)).chain([if scalar == 4 { A_LIT_FLOAT } else { A_LIT_INT }]).collect();
+        let vtuples = tuples_over(&valpha, 2);
+        let vsigs = sigs_over(&vt, 2);
+        let vtrip = subsets(vsigs.len(), 3);
+        let r = run_par(ctx, vtrip.len() as u64, 1, |idx, acc| {
+            let s = &vtrip[idx as usize];
+            let set: Vec<Sig> = s.iter().map(|i| vsigs[*i].clone()).collect();
+            let v = process_set(&env2, &set, &vtuples, acc);
+            if idx % 211 == 0 {
+                acc.sample(obj(vec![
+                    ("space", "2-parameter vector-width triples".into()),
+                    ("set", set_show(&set).into()),
+                    ("verdicts", Json::Arr(v.iter().enumerate().step_by(7).map(|(t, v)| format!("({}) {}", args_show(&vtuples[t]), v_show(*v, &set)).into()).collect())),
+                ]));
+            }
+        });
+        absorb(ctx, &mut rep, &format!("p2_vector_width_triples_{}", fam), r);
+    }
+
     // ---- phase 5: three parameters, pairs over the scalar types
     let env3 = Env { base: &base, witness: false, space: "p3", batch: 128, crosscheck: 1009, use_pref: true, probe_cpu };
     let sc3: Vec<P> = ctx.pick(vec![0usize, 1, 3, 4], vec![0usize, 1, 3, 4, 5]).iter().map(|s| p_code(ty_of(*s, 1), false)).collect();
